@@ -63,6 +63,9 @@ pub fn install_panic_hook() {
         if std::env::var("VERIF_SHOW_PANICS").is_ok() {
             eprintln!("panic: {} @ {}", msg, loc);
         }
+        if std::env::var("VERIF_BT").is_ok() {
+            eprintln!("{}", std::backtrace::Backtrace::force_capture());
+        }
     }));
 }
 
